@@ -832,3 +832,5 @@ V("sp3-c07-all-dags-listcomp", "C07", "silent", UT, "    dags = [A for A in dags
 V("sp3-c07-all-dags-not", "C07", "silent", UT, "        oriented_edges[flipped == False, :] = undirected_edges[:, [0, 1]][flipped == False]\n", "        oriented_edges[~flipped, :] = undirected_edges[~flipped]\n", what="~mask and identity column order")
 V("sp3-c07-all-dags-stack", "C07", "silent", UT, "    dags = [A for A in dags if is_dag(A) and is_consistent_extension(A, pdag)]\n    return np.array(dags)\n", "    dags = [A for A in dags if is_dag(A) and is_consistent_extension(A, pdag)]\n    return np.stack(dags) if dags else np.array(dags)\n", what="np.stack")
 
+V("sp3-c03-row-zero", "C03", "silent", UT, "        for j in ch(i, A):\n            A[i, j] = 0\n", "        children = ch(i, A)\n        A[i, :] = 0\n        for j in children:\n", what="row cleared at once, children remembered before")
+V("c03-row-zero-children-after", "C03", "fire", UT, "        for j in ch(i, A):\n            A[i, j] = 0\n", "        A[i, :] = 0\n        for j in ch(i, A):\n", rule="KAHN", what="row cleared before the children are read: nothing is ever relaxed")
